@@ -657,6 +657,10 @@ i_mep i_mep::cse() const
       new_locus.try_emplace(g, current_locus);
     }
 
+  // Genes that compare equivalent aren't always bit-identical (e.g. `0.0` and
+  // `-0.0` parameters), so the active code could have changed.
+  ret.signature_.clear();
+
   return ret;
 }
 
